@@ -476,12 +476,25 @@ inline py::tuple StructSequenceGetFields(const py::handle& object) {
 }
 
 inline void TotalOrderSort(py::list& list) {  // NOLINT[runtime/references]
+    // NOTE: a failed `list.sort()` may leave the list partially reordered. Sort a copy and only
+    // replace the list on success, so that the fallbacks start from (and finally keep) the
+    // original insertion order.
+    const auto copy = [&list]() -> py::list {
+        const scoped_critical_section cs{list};
+        PyObject* const ptr = PyList_GetSlice(list.ptr(), 0, PyList_GET_SIZE(list.ptr()));
+        if (ptr == nullptr) [[unlikely]] {
+            throw py::error_already_set();
+        }
+        return py::reinterpret_steal<py::list>(ptr);
+    };
     try {
         // Sort directly if possible.
-        if (static_cast<bool>(EVALUATE_WITH_LOCK_HELD(PyList_Sort(list.ptr()), list)))
+        py::list sorted = copy();
+        if (static_cast<bool>(EVALUATE_WITH_LOCK_HELD(PyList_Sort(sorted.ptr()), sorted)))
             [[unlikely]] {
             throw py::error_already_set();
         }
+        list = std::move(sorted);
     } catch (py::error_already_set& ex1) {
         if (ex1.matches(PyExc_TypeError)) [[likely]] {
             // Found incomparable keys (e.g. `int` vs. `str`, or user-defined types).
@@ -495,10 +508,12 @@ inline void TotalOrderSort(py::list& list) {  // NOLINT[runtime/references]
                         cls)};
                     return py::make_tuple(qualname, obj);
                 });
+                py::list sorted = copy();
                 {
-                    const scoped_critical_section cs{list};
-                    py::getattr(list, Py_Get_ID(sort))(py::arg("key") = sort_key_fn);
+                    const scoped_critical_section cs{sorted};
+                    py::getattr(sorted, Py_Get_ID(sort))(py::arg("key") = sort_key_fn);
                 }
+                list = std::move(sorted);
             } catch (py::error_already_set& ex2) {
                 if (ex2.matches(PyExc_TypeError)) [[likely]] {
                     // Found incomparable user-defined key types.
